@@ -559,7 +559,7 @@ pub(crate) fn cc_try_unwrap_err_contract() {
 
 /// finalize_again: panics iff any collector flag is set (object unchanged), otherwise clears only
 /// the finalized bit.
-//@ C12 C05 | complete | deciding | feat=full,fin | fn=Cc::finalize_again,Cc::already_finalized | timeout=600
+//@ C12 C05 | complete | deciding | feat=full,finweak | fn=Cc::finalize_again,Cc::already_finalized | timeout=600
 #[cfg(feature = "finalization")]
 #[kani::proof]
 #[kani::unwind(9)]
@@ -578,7 +578,7 @@ pub(crate) fn cc_finalize_again_idle_contract() {
     kani::assert(pc_view().1 == in_pc as usize && ccp::cb_counts() == (0, 0, 0), "Cc::finalize_again::frame::buffer_no_callback");
     core::mem::forget(h);
 }
-//@ C12 C05 | complete | deciding | feat=full,fin | fn=Cc::finalize_again | panic=Cc::finalize_again cannot be called while collecting | timeout=600
+//@ C12 C05 | complete | deciding | feat=full,finweak | fn=Cc::finalize_again | panic=Cc::finalize_again cannot be called while collecting | timeout=600
 #[cfg(feature = "finalization")]
 #[kani::proof]
 #[kani::should_panic]
